@@ -205,6 +205,8 @@ fn stream_for(aidx: ActorIdx, spec: &ActorSpec) -> SimStream {
 
 /// All synchronous spawn entry points, generic over the tag. Returns (address, owning?).
 fn spawn_sync<T: TagT>(aidx: ActorIdx) -> (Option<Addr<Probe<T>>>, Option<OwningAddr<Probe<T>>>) {
+    let mark = simrt::last_spawned();
+    with_h(|h| h.spawn_mark = Some(mark));
     let spec = with_h(|h| h.scn.spec_of(aidx).clone());
     let entry = match spec.entry {
         // `register` is async; callers that cannot await fall back to the plain builder spawn
@@ -315,7 +317,13 @@ fn spawn_sync<T: TagT>(aidx: ActorIdx) -> (Option<Addr<Probe<T>>>, Option<Owning
 }
 
 fn note_spawned(aidx: ActorIdx, inst_before: u32) {
-    let task = simrt::last_spawned();
+    // the actor's loop task: the first task of the "actor loop" kind (a future that yields the
+    // actor back) among those the entry point spawned; a spawner may start helper tasks as well
+    let last = simrt::last_spawned();
+    let mark = with_h(|h| h.spawn_mark.take());
+    let task = mark
+        .and_then(|m| (m + 1..=last).find(|t| simrt::task_kind(*t) == Some(simrt::TaskKind::ActorLoop)))
+        .unwrap_or(last);
     log(Ev::ActorSpawned { aidx, inst: inst_before, task });
 }
 
